@@ -110,6 +110,10 @@ def c15_case(draw, tier):
         else:
             k = draw(st.integers(1, len(vis) - 1))
             dropped = list(draw(st.permutations(vis)))[:k]
+            vis_agg = [(n, c) for n, c in vis if c in t.agg_cols]
+            if vis_agg and all(x in dropped for x in vis_agg):
+                # K03 (open finding): one column of an ungrouped summarize stays selected
+                dropped = [x for x in dropped if x != vis_agg[0]] or [x for x in vis if x != vis_agg[0]][:1]
             dn = {n for n, _ in dropped}
             L = [{"out": "L1", "verb": "drop", "in": p, "cols": [{"c": n} for n, _ in dropped]}]
             R = [{"out": "R1", "verb": "select", "in": p, "cols": [{"c": n} for n, _ in vis if n not in dn]}]
@@ -234,13 +238,13 @@ class C15(Check):
     def examine(self, case) -> Outcome:
         out = Outcome()
         out.classes.append("eq:" + case["eq"])
-        full = {}
+        full, refs = {}, {}
         for side in ("left", "right"):
             c = dict(case)
             c["steps"] = case["steps"] + case[side]
             full[side] = c
             try:
-                refsem.run(c)
+                refs[side] = refsem.run(c)
             except OutOfDomain as ex:
                 out.discard = f"out-of-domain:{str(ex)[:40]}"
                 return out
@@ -270,7 +274,7 @@ class C15(Check):
                         frames[side] = build.export_polars(b.vars[last])
                     except BaseException as ex:  # noqa: BLE001
                         reraise_control(ex)
-                        if is_refusal(ex) or engine_quirk(ex, full[side], None):
+                        if is_refusal(ex) or engine_quirk(ex, full[side], refs.get(side)):
                             refused = True
                             continue
                         out.fail("internal-error", f"{kind}:{case['eq']}:export:{exc_name(ex)}", f"{kind}: export of the {side} side raised {exc_name(ex)}: {str(ex)[:300]}")
